@@ -280,7 +280,7 @@ func compileSendStmt(ctx *blockCtx, expr *ast.SendStmt) {
 	if isAppendable(ch) { // a <- v1, v2, v3 (issue #2107)
 		compileExpr(ctx, ch)
 		a := stk.Get(-1)
-		t := a.Type.Underlying()
+		t := getUnderlying(ctx, a.Type) // the named type may be declared later in the file (not loaded yet)
 		if _, ok := t.(*types.Slice); ok { // a = append(a, v1, v2, v3)
 			stk.Pop()
 			compileExprLHS(ctx, ch)
